@@ -202,14 +202,27 @@ func (c *cl) apiRound(round, sub, topic int) bool {
 		c.rec.Note(0, "c_next", "", 0)
 		return true
 	}
+	c.rig.ShareID(sub, id)
 	polls := 0
 loop:
 	for {
 		opts := []string{"uninstall", "uninstall", "abandon"}
 		if polls < c.plan.Polls {
 			opts = append(opts, "poll", "poll", "poll")
+			if c.cmds == nil { // free stress: several clients, one filter id
+				opts = append(opts, "xuninstall")
+			}
 		}
 		switch c.next("c_use", opts...) {
+		case "xuninstall":
+			other, ok := c.rig.OtherID(sub, c.rng.Intn(1000))
+			if !ok {
+				continue
+			}
+			polls++
+			c.rec.Note(0, "c_use", "xuninstall", 0)
+			c.set("UninstallFilter (another client's filter)")
+			c.rig.API.UninstallFilter(other)
 		case "exit":
 			return false
 		case "poll":
